@@ -256,6 +256,9 @@ def run_opt(case):
         for v, x in zip(p.variables, x_start):
             v.update(x)
         p.update_optics()
+    if case.get('preopt'):
+        # start from an already good lens: a plain local optimisation first (not part of the observed run)
+        om.OptimizerGeneric(p).optimize(maxiter=int(case['preopt']), disp=False, tol=1e-9)
     opt = None
     if not fe.startswith('compensator'):
         opt = globals()['L_' + fe](p)
